@@ -30,6 +30,7 @@ MULTI_REG = '''//@   requires testsRegistry != nil && testsRegistry.running != n
 //@   let F = old(fsc[sp])
 //@   let hit = old(fsx[sp]) && found(old(fsc[sp]), id)
 //@   let stored = body(F, id)
+//@   let Fx = old(fsx[sp]) ? old(fsc[sp]) : ""
 //@   let ordinalTaken = testsRegistry.running[sp][tname(t)] == k && testsRegistry.cleanup[sp][tname(t)] == old(testsRegistry.cleanup[sp][tname(t)]) + 1
 '''
 MULTI_ASSIGNS = '''//@   assigns nErr[t], lastErr[t], nLog[t], lastLog[t], nCleanup[t], lastCleanup[t]
@@ -54,6 +55,10 @@ def multi_tail(pre, ok, cmpnote):
 //@   ensures [created] {pre} && dAdd == 1 ==> {ok} && !hit && mayCreate && fsx[sp] && fsc[sp] == (old(fsx[sp]) ? F : "") + "\\n" + id + "\\n" + snap + "\\n---\\n"
 //@   ensures [updated] {pre} && dUpd == 1 ==> {ok} && hit && mayUpdate && stored != snap
 //@   ensures [equal_nowrite] {pre} && {ok} && hit && stored == snap ==> nowrite
+//@   ensures [created_lookup] {pre} && dAdd == 1 && wf(Fx) && noEND(snap) ==> found(fsc[sp], id) && body(fsc[sp], id) == snap && wf(fsc[sp])
+//@   ensures [created_others] {pre} && dAdd == 1 && wf(Fx) ==> (forall id2 Str: id2 != id && id2 != "" && id2 != "---" && lacks(snap, id2) ==> found(fsc[sp], id2) == found(Fx, id2) && (found(Fx, id2) ==> body(fsc[sp], id2) == body(Fx, id2)))
+//@   ensures [updated_lookup] {pre} && dUpd == 1 && uniqueHdr(F, id) && noEND(snap) ==> updShape(F, id, snap, fsc[sp]) && found(fsc[sp], id) && body(fsc[sp], id) == snap && (wf(F) ==> wf(fsc[sp]))
+//@   ensures [updated_others] {pre} && dUpd == 1 && uniqueHdr(F, id) && wf(F) ==> (forall id2 Str: id2 != id && id2 != "---" && lacks(snap, id2) && lacks(stored, id2) ==> found(fsc[sp], id2) == found(F, id2) && (found(F, id2) && apart(F, id, id2) ==> body(fsc[sp], id2) == body(F, id2)))
 //@   ensures [locks] held[_m] == 0 && held[testsRegistry.Mutex] == 0 && held[testEvents.Mutex] == 0
 '''
 CLEANUP_MULTI = '''//@ func {name}$1()
